@@ -61,6 +61,7 @@ func buildPool(c *Ctx, input []fhir.Resource) []poolItem {
 	lits := []string{
 		"0", "1", "-1", "2", "2147483647", "1.0", "1.00", "0.5", "1.5", "-1.0", "100.0", "0.0", "2.0", "1.000000000000000000001",
 		"'a'", "'b'", "''", "'ab'", "'é'", "'z'", "'A'", "true", "false",
+		"@1500-06-15", "@1500-06-16", "@9999-12-31", "@2300-01-02T03:04:05Z", "@1990-01-01", "'+/8='", "'-_8='", "'/w=='", "'0'",
 		"@2020", "@2020-01", "@2020-01-01", "@2020-02", "@2019-12-31", "@2021", "@2020-01-02",
 		"@2020T", "@2020-01T", "@2020-01-01T", "@2020-01-01T10", "@2020-01-01T10:00", "@2020-01-01T10:00:00", "@2020-01-01T10:00:00.000",
 		"@2020-01-01T10:00:00Z", "@2020-01-01T15:30:00+05:30", "@2019-12-31T23:00:00-11:00", "@2020-01-01T10:00Z", "@2020-01-01T10:00+05:30",
@@ -110,6 +111,10 @@ func buildPool(c *Ctx, input []fhir.Resource) []poolItem {
 		{"DateTime 2020-01-01T10:00:00.000100Z us", mkDT(2020, 1, 1, 10, 0, 0, 100, "Z", dtpb.DateTime_MICROSECOND)},
 		{"Time 10:00:00.000100", &dtpb.Time{ValueUs: 36000e6 + 100, Precision: dtpb.Time_MICROSECOND}},
 		{"Time 10:00:00", &dtpb.Time{ValueUs: 36000e6, Precision: dtpb.Time_SECOND}}, {"Time 10:00:00.000", &dtpb.Time{ValueUs: 36000e6, Precision: dtpb.Time_MILLISECOND}},
+		// years far from the epoch; binary data whose text uses every character of the standard base64 alphabet
+		{"Date 1500-06-15 UTC", mkDate(1500, 6, 15, "UTC", dtpb.Date_DAY)}, {"Date 9999-12-31 UTC", mkDate(9999, 12, 31, "UTC", dtpb.Date_DAY)}, {"Date 0001-01 UTC", mkDate(1, 1, 1, "UTC", dtpb.Date_MONTH)},
+		{"DateTime 2300-01-02T03:04:05Z s", mkDT(2300, 1, 2, 3, 4, 5, 0, "Z", dtpb.DateTime_SECOND)}, {"DateTime 1600-02-29T10:00:00+05:30 s", mkDT(1600, 2, 29, 10, 0, 0, 0, "+05:30", dtpb.DateTime_SECOND)},
+		{"Base64Binary FBFF", &dtpb.Base64Binary{Value: []byte{0xFB, 0xFF}}}, {"Base64Binary FF", &dtpb.Base64Binary{Value: []byte{0xFF}}}, {"Base64Binary 00", &dtpb.Base64Binary{Value: []byte{0x00}}},
 		{"Quantity 1 mg", &dtpb.Quantity{Value: &dtpb.Decimal{Value: "1"}, Code: &dtpb.Code{Value: "mg"}}},
 		{"Quantity 1.0 kg", &dtpb.Quantity{Value: &dtpb.Decimal{Value: "1.0"}, Code: &dtpb.Code{Value: "kg"}}},
 		{"HumanName A", &dtpb.HumanName{Family: fhir.String("A")}}, {"HumanName A'", &dtpb.HumanName{Family: fhir.String("A")}}, {"HumanName B", &dtpb.HumanName{Family: fhir.String("B")}},
@@ -139,6 +144,8 @@ func runC05(c *Ctx) {
 		"DateTime 2020-01-01 day +05:30": "@2020-01-01T", "DateTime 2020 year": "@2020T", "DateTime 2020-01-01 day -11:00": "@2020-01-01T", "DateTime 2020-01-01 day +14:00": "@2020-01-01T", "DateTime 2020-01 month +05:30": "@2020-01T",
 		"DateTime 2020 year +14:00": "@2020T", "DateTime 2020-01-01T10:00:00.000100Z us": "@2020-01-01T10:00:00.000100Z", "Time 10:00:00": "@T10:00:00", "Time 10:00:00.000": "@T10:00:00.000", "Time 10:00:00.000100": "@T10:00:00.000100",
 		"Quantity 1 mg": "1 'mg'", "Quantity 1.0 kg": "1.0 'kg'",
+		"Date 1500-06-15 UTC": "@1500-06-15", "Date 9999-12-31 UTC": "@9999-12-31", "Date 0001-01 UTC": "@0001-01", "DateTime 2300-01-02T03:04:05Z s": "@2300-01-02T03:04:05Z", "DateTime 1600-02-29T10:00:00+05:30 s": "@1600-02-29T10:00:00+05:30",
+		"Base64Binary FBFF": "'+/8='", "Base64Binary FF": "'/w=='", "Base64Binary 00": "'AA=='",
 	}
 	for _, p := range pool {
 		lit, ok := elemLiteral[p.src]
